@@ -43,6 +43,16 @@ ASSUMPTIONS = ["interval >= 1 (documented)", "datetime/calendar stdlib as docume
 MASKS = {"wnomask", "nwdaymask", "eastermask", "wdaymask"}
 
 
+def _emptiness(t, tv):
+    """the fact says that some local collection is empty (len(x) == 0 / not x, however spelled)"""
+    from ..summ import atom_of
+    try:
+        a, v = atom_of(t, tv)
+    except SyntaxError:
+        return False
+    return a[0] == "t" and re.match(r"^\w+$", a[1]) is not None and v is False
+
+
 def oracle_tables():
     out = {}
     for leap, y in ((True, 2000), (False, 2001)):
@@ -307,7 +317,22 @@ def run(ctx):
                 n_time += 1
                 pos = [src(a) for a in x.args]
                 kw = {k.arg: src(k.value) for k in x.keywords}
-                ok = pos == ["hour", "minute", "second"] and list(kw) == ["tzinfo"] and kw["tzinfo"] in ("self._tzinfo", "rr._tzinfo", "self.rrule._tzinfo")
+                # each positional is the function's own hour / minute / second parameter or ranges over the rule's by<unit> list
+                def origin(name_):
+                    if name_ in f.params:
+                        return name_
+                    for y in walk_local(f.node):
+                        tgt, itx = None, None
+                        if isinstance(y, ast.For):
+                            tgt, itx = y.target, y.iter
+                        elif isinstance(y, ast.comprehension):
+                            tgt, itx = y.target, y.iter
+                        if tgt is not None and isinstance(tgt, ast.Name) and tgt.id == name_:
+                            m_ = re.search(r"\._by(hour|minute|second)$", src(itx))
+                            if m_:
+                                return m_.group(1)
+                    return name_
+                ok = [origin(a_) for a_ in pos] == ["hour", "minute", "second"] and list(kw) == ["tzinfo"] and kw["tzinfo"] in ("self._tzinfo", "rr._tzinfo", "self.rrule._tzinfo")
                 ctx.ob("C01.TIME", f, "time values are built as time(hour, minute, second, tzinfo=<the rule's tzinfo>): whole seconds, start's zone",
                        ok, construct="%s: %s" % (f.name, src(x)), analysis="FIELD arity/same-field")
     ctx.floor("C01.TIME", n_time, 4, "datetime.time constructions in rrule.py")
@@ -365,7 +390,7 @@ def run(ctx):
     cb = prog.method(rr.qualname, "_rrule__construct_byset", "C01.GUARD") if "_rrule__construct_byset" in rr.methods else prog.method(rr.qualname, "__construct_byset", "C01.GUARD")
     ccfg = ctx.cfg(cb)
     cr = [n for n in ccfg.live_nodes() if n.kind == "stmt" and isinstance(n.ast, ast.Raise)]
-    okc = len(cr) == 1 and src(cr[0].ast.exc).startswith("ValueError") and any(tv and t.replace(" ", "") in ("len(cset)==0", "notcset") for t, tv in ctx.facts(cb).at(cr[0]))
+    okc = len(cr) == 1 and src(cr[0].ast.exc).startswith("ValueError") and any(_emptiness(t, tv) for t, tv in ctx.facts(cb).at(cr[0]))
     ctx.ob("C01.GUARD", cb, "a same-level BY set with no reachable member raises ValueError", okc, construct="empty cset guard")
     inv = [n for n in cfg.live_nodes() if n.kind == "stmt" and isinstance(n.ast, ast.Raise)]
     # either spelling of "the search found nothing": a flag that stayed false, or the else clause of the searching for loop
